@@ -24,6 +24,7 @@ import typing
 from harness import inputs, progs, tl
 from harness import universe as U
 from harness.core import st
+from harness import retry
 from harness.oracles import deep_same, diff_bucket, exc_bucket, snapshot, why_different
 
 ID = "C05"
@@ -368,6 +369,22 @@ def per_program(p):
         nodes = composite_nodes(p.spec, wire, v, p.mat)
         for node in nodes[:12]:
             check_node(p, node, col, feats)
+        # the composite after a conversion of this very input failed on one member and was handled (member put back in place)
+        if isinstance(wire, (list, dict)) and wire:
+            import copy as _copy
+            pick = p.draw(st.integers(0, 10 ** 6))
+            w2 = _copy.deepcopy(wire)
+            tl.clear_all()
+            r = retry.retry_after_failure(w2, lambda o: tl.call(tl.unmarshal, p.T, o), pick)
+            if r is not None:
+                col.ev()
+                failed, want, got = r
+                col.label(f"retry:first-call-{'failed' if failed else 'passed'}")
+                if got != want:
+                    col.violation("unmarshal-equals-rebuild", {"spec": p.spec, "root": p.mat.root_expr, "node_path": "$", "value": U.to_src(v, p.mat), "retry": pick},
+                                  f"root ({p.mat.root_expr}): a conversion failed on one invalid member, the member was put back in place, the same call then "
+                                  f"{'raised ' + got[1] if got[0] == 'exc' else 'returned something else'} (the member routines convert every member)",
+                                  bucket=f"retry|{got[0]}")
         if nodes and feats and not sampled and len(p.mat.source()) < 1200:
             col.sample({"program": p.mat.source(), "features": sorted(feats), "nodes": [n[3] for n in nodes[:8]]})
             sampled = True
@@ -390,6 +407,14 @@ def run_shard(shard, col):
 def replay(clause, case, col):
     def per_case(p):
         v = p.mat.eval(case["value"])
+        if case.get("retry") is not None:
+            import copy as _copy
+            w2 = _copy.deepcopy(U.plain_wire(p.spec, v, p.mat))
+            r = retry.retry_after_failure(w2, lambda o: tl.call(tl.unmarshal, p.T, o), case["retry"])
+            col.ev()
+            if r is not None and r[2] != r[1]:
+                col.violation("unmarshal-equals-rebuild", case, f"after a handled failure on this input: {r[2][0]}", bucket=f"retry|{r[2][0]}")
+            return
         # re-locate the node by path on a re-derived wire of the *root* value is not possible (the stored value is the
         # node's value): check the node directly
         spec_n = _find(p.spec, case["node_path"], p.mat)
